@@ -13,6 +13,7 @@ import random
 from harness import core, lex
 
 PROP = "C05"
+TRACE_MODULES = ["Trace_C05"]
 ZW = dict(base=lex.Z32, mask=lex.Z32)
 
 
